@@ -1,7 +1,7 @@
-HOOK_COMMITS = ["69b5feac"]
-FIX_COMMITS = ["1d9ec378", "304105e7", "df3a2e6c", "f7361866", "4009b9f0", "f51e7edb", "ccff1f53"]
+HOOK_COMMITS = ["69b5feac", "e0ac4262"]
+FIX_COMMITS = ["1d9ec378", "304105e7", "df3a2e6c", "f7361866", "4009b9f0", "f51e7edb", "ccff1f53", "d86e4171"]
 ENGINES = [
-    {"name": "tlc+harness", "path": "/verif/bin/check", "serves_properties": ["C01", "C02", "C04", "C05", "C06", "C07", "C08", "C09", "C10", "C11", "C12", "C13", "C15", "C18", "C19", "C20"],
+    {"name": "tlc+harness", "path": "/verif/bin/check", "serves_properties": ["C01", "C02", "C04", "C05", "C06", "C07", "C08", "C09", "C10", "C11", "C12", "C13", "C15", "C16", "C18", "C19", "C20", "C03"],
      "kind_free_text": "explicit TLA+ specification (spec/*.tla) checked with TLC; bound to the Rust code by a harness crate "
                        "(/verif/harness) that replays TLC-generated behaviours into mls-rs and records traces validated by TLC"},
 ]
@@ -72,6 +72,15 @@ CHECKS += [
     {"id": "C13", "category": "model_checking", "technique": "TLA+ transcription of the RFC 9420 derivation graph (KeySchedule.tla) + TLC validation of provenance trees recorded from the crypto provider",
      "text": "A recording CipherSuiteProvider logs every kdf_extract / kdf_expand / hash / mac while real groups run seeded scenarios; for every API-visible value (epoch authenticator, exported secret, message key and nonce given to aead_seal, confirmed transcript hash) the harness emits the tree of recorded calls that produced it, knowing nothing about the formulas; TLC matches each tree against KeySchedule.tla: label strings with the MLS 1.0 prefix, contexts, both length fields, Extract salt/ikm roles, PSK index/count chain, secret-tree left/right positions (TreeMath), ratchet generations. Every recorded call is also re-evaluated with the other shipped providers.",
      "note": "primitives trusted as functions; values produced before recording starts (creation epoch) or received through HPKE are accepted as inputs; membership tag and Welcome secret are not yet claimed"},
+]
+
+CHECKS += [
+    {"id": "C03", "category": "model_checking", "technique": _CORE + "; byte-level tamper probe (bit flips, truncations, splices) of every delivered message against a clone of the receiver",
+     "text": "In MlsGroup.tla a member accepts only messages of the delivery-service log for its own epoch secret (registry ids; epoch, own-message and replay guards) -- stale, cross-epoch and replayed authentic messages are behaviour steps with model verdicts. Every other byte string has the verdict 'reject': before each authentic DeliverProposal / DeliverCommit / DeliverApp / JoinWelcome of every replayed behaviour, modified copies (random single-bit flips, truncations, splices with other authentic messages of the same kind, Welcomes of other commits, modified out-of-band trees) are offered to a clone of the receiver in exactly that state; each must be rejected without panic and leave the complete member state unchanged (a Welcome modified outside the joiner's own part may instead yield the identical group). Accepted messages are checked for true sender, payload and authenticated data.",
+     "note": "byte positions are sampled (quick: 8 flips per message, thorough: 60; --tamper-exhaustive for all positions of messages <= 1500 bytes); the insider model (a member re-signing structurally invalid content) is not covered because it needs a signing hook inside the library; external-commit GroupInfo tampering is not generated"},
+    {"id": "C16", "category": "model_checking", "technique": _CORE + "; observer actions replayed into a real ExternalClient/ExternalGroup",
+     "text": "Obs* actions of MlsGroup.tla model an external observer that starts from any member's GroupInfo at any epoch, follows proposals and commits with the members' rule set minus secrets, and lets application ciphertexts through iff their epoch >= max(0, epoch - jitter) for jitter in {unset, 0, 1, 2, 1000}; TLC checks ObserverTracks exhaustively on a bounded instance; generated behaviours are replayed into a real ExternalGroup under catch_unwind comparing outcome, epoch, extensions, tree, proposal cache with the model and group context, roster and exported tree bytes with every real member of the same epoch, with snapshot/restore at model-chosen points.",
+     "note": "see C01; proposals issued by the observer as an external sender and external commits are not generated yet; encrypted handshake messages are modelled but not in the generated configuration"},
 ]
 
 _PENDING = "check not built yet in this round (see DESIGN.md section 10 build order); will be claimed once its TLA+ model and binding exist"
